@@ -233,9 +233,9 @@ func record08(out string) {
 		s.cube("Mac", alg)
 	}
 	// seeded histories: few points per history so that points repeat on different cells and lengths
-	nh, maxLen := 400, 80
+	nh, maxLen := 1200, 80
 	if ev.Thorough() {
-		nh, maxLen = 5000, 400
+		nh, maxLen = 20000, 400
 	}
 	for h := 0; h < nh; h++ {
 		s.reset()
